@@ -302,7 +302,7 @@ func genConfig(r rng, seed uint64, id string, merge bool) *sdl.Program {
 			if merge {
 				// precedence family: fields never make the start fail
 				cf.Optional, cf.Validate = true, ""
-				if cf.Menu == "sum" || cf.Menu == "mul" || cf.Menu == "nested" {
+				if cf.Menu == "sum" || cf.Menu == "mul" || cf.Menu == "nested" || cf.Menu == "prefixStructV" {
 					cf.Menu, cf.Keys, cf.GoType = "prefixStruct", []string{"sim.sub"}, "struct"
 				}
 			}
@@ -339,6 +339,12 @@ func genConf(r rng, field string) *sdl.Conf {
 		c.Menu, c.Keys = "prefixInt", []string{pick(r, cfgLeafInts)}
 	case 7:
 		c.Menu, c.Keys, c.GoType = "prefixStruct", []string{"sim.sub"}, "struct"
+		if r.p(0.5) {
+			c.Menu, c.GoType = "prefixStructV", "structV"
+			if r.p(0.7) {
+				c.Validate = "struct"
+			}
+		}
 	case 8:
 		c.Menu, c.Keys, c.GoType = "value", []string{pick(r, cfgLeafStrs)}, "string"
 	case 9:
@@ -352,6 +358,9 @@ func genConf(r rng, field string) *sdl.Conf {
 	c.Optional = r.p(0.25)
 	if c.GoType == "int" && r.p(0.5) {
 		c.Validate = pick(r, []string{"min=3", "max=5", "required", "min=2 max=7", "gte=1"})
+	}
+	if c.GoType == "structV" && c.Validate != "struct" {
+		c.Validate = ""
 	}
 	if c.GoType == "string" && r.p(0.5) {
 		c.Validate = pick(r, []string{"eq=va", "required", "ne=vb"})
@@ -394,8 +403,8 @@ func GenerateTwins(seed uint64, idFlat, idEmb string) (*sdl.Program, *sdl.Progra
 		for fi := 0; fi < r.n(0, 2); fi++ {
 			cf := genConf(r, fmt.Sprintf("C%d", fi))
 			cf.Optional, cf.Validate, cf.Embed = true, "", nil
-			if cf.Menu == "sum" || cf.Menu == "mul" || cf.Menu == "nested" {
-				cf.Menu, cf.Keys, cf.Default = "valueDef", []string{pick(r, cfgLeafInts)}, "1"
+			if cf.Menu == "sum" || cf.Menu == "mul" || cf.Menu == "nested" || cf.Menu == "prefixStructV" {
+				cf.Menu, cf.Keys, cf.Default, cf.GoType = "valueDef", []string{pick(r, cfgLeafInts)}, "1", "int"
 			}
 			if len(p.Scanners) != 0 && r.p(0.35) {
 				// two recognised tags on one field
